@@ -433,6 +433,35 @@ ROUND3 = {
            'on both connections.',
 }
 
+ROUND4 = {
+    'C01': ' A slice moves messages out of the watched mailbox and back.',
+    'C02': ' Two maildir slices: the backend with its real worker threads '
+           '(sampled, not reproducible) and a deterministic external actor '
+           'renaming message files in the racing windows.',
+    'C03': ' Every part is also fetched as BINARY.PEEK[x] BODY.PEEK[x] in '
+           'one command.',
+    'C06': ' Every fourth case runs with DEBUG logging; a slice sends '
+           'over-limit {n+} literals under a small max_append_len.',
+    'C07': ' SEARCH RETURN spellings; quoted names with NUL/8-bit octets.',
+    'C08': ' A third user whose directory name extends the attacker\'s.',
+    'C09': ' STARTTLS and a login in one plaintext segment; base64 must be '
+           'strict.',
+    'C10': ' A seventh of the cases has no APPENDLIMIT, bodies up to 9000 '
+           'octets; maildir also with --colon.',
+    'C11': ' Dots, maildir directory and control-file names, empty levels, '
+           'trailing delimiters and line-separator characters are judged; '
+           'structured programs.',
+    'C12': ' maildir also with --colon.',
+    'C13': ' UID SEARCH with sequence numbers while expunges are unreported.',
+    'C14': ' The destination is pre-populated.',
+    'C15': ' A mailbox half created at the crash is created again.',
+    'C16': ' Mover session, floods of single expunges, idled mailbox '
+           'deleted or renamed away.',
+    'C17': ' Selections also end with the connection lost inside IDLE.',
+    'C19': ' The maildir slice also puts other names and deletes the '
+           'active script.',
+}
+
 NOT_YET = 'check not built yet in this round (see DESIGN.md section 4)'
 
 
@@ -455,7 +484,8 @@ def main() -> None:
             'replay_cmd_template': '%s -m vf %s --replay {path}' % (PY, pid),
             'engine': 'vf',
             'level_claimed': {'category': c['category'],
-                              'text': c['text'] + ROUND3.get(pid, ''),
+                              'text': c['text'] + ROUND3.get(pid, '')
+                              + ROUND4.get(pid, ''),
                               'design_ref': c['design']},
             'level_note': c['note'],
             'technique': c['technique'],
